@@ -456,6 +456,11 @@ def _calls(rs, dt):
         calls["%s.Retr" % lt] = (lambda x, a: pp.Retr(x, a), [G(lt, 3), A(alt, 3)])
         calls["%s.add" % lt] = (lambda x, a: pp.add(x, a), [G(lt, 3), T(3, R.ADIM[alt])])
         calls["%s.plus" % lt] = (lambda x, a: x + a, [G(lt), T(3, R.ADIM[alt])])
+        # optional arguments matter too: alpha scaling of the increment must not be done on the caller's tensor
+        calls["%s.add_alpha" % lt] = (lambda x, a: pp.add(x, a, alpha=0.5), [G(lt, 3), T(3, R.ADIM[alt])])
+        calls["%s.method_add_alpha" % lt] = (lambda x, a: x.add(a, alpha=2), [G(lt), T(3, R.ADIM[alt])])
+        calls["%s.add_lie_alpha" % lt] = (lambda x, a: x.add(a, alpha=-1.5), [G(lt, 3), A(alt, 3)])
+        calls["%s.alg_add_alpha" % lt] = (lambda x, a: pp.add(x, a, alpha=3), [A(alt, 3), T(3, R.ADIM[alt])])
         calls["%s.mul" % lt] = (lambda x, y: pp.mul(x, y), [G(lt, 3), G(lt, 3)])
         calls["%s.matrix" % lt] = (lambda x: pp.matrix(x), [G(lt, 3)])
         calls["%s.rotation" % lt] = (lambda x: pp.rotation(x), [G(lt, 3)])
@@ -482,6 +487,13 @@ def _calls(rs, dt):
     calls["pixel2point"] = (lambda px, d, k: pp.pixel2point(px, d, k), [T(8, 2), T(8).abs() + 1, K.clone()])
     calls["reprojerr"] = (lambda p, px, k: pp.reprojerr(p, px, k), [cam.clone(), T(8, 2), K.clone()])
     calls["knn"] = (lambda a, b: pp.knn(a, b, k=2), [T(6, 3), T(9, 3)])
+    calls["knn_opts"] = (lambda a, b: pp.knn(a, b, k=3, ord=1, largest=True, sorted=False), [T(6, 3), T(9, 3)])
+    calls["nbr_filter_mask"] = (lambda p: pp.nbr_filter(p, nbr=2, radius=1.5, pdim=2, return_mask=True), [pts.clone()])
+    calls["knn_filter_pdim"] = (lambda p: pp.knn_filter(p, k=2, pdim=2, ord=1), [pts.clone()])
+    calls["chspline_batch"] = (lambda p: pp.chspline(p, 0.3), [T(2, 5, 3)])
+    calls["bspline_extra"] = (lambda p: pp.bspline(p, 0.3, extrapolate=True), [G("SE3", 5)])
+    calls["svdstf_noscale"] = (lambda a, b: pp.svdstf(a, b, with_scale=False), [pts.clone(), T(12, 3)])
+    calls["reprojerr_ext"] = (lambda p, px, k, e: pp.reprojerr(p, px, k, e, reduction="sum"), [cam.clone(), T(8, 2), K.clone(), G("SE3")])
     calls["svdtf"] = (lambda a, b: pp.svdtf(a, b), [pts.clone(), T(12, 3)])
     calls["svdstf"] = (lambda a, b: pp.svdstf(a, b), [pts.clone(), T(12, 3)])
     calls["nbr_filter"] = (lambda p: pp.nbr_filter(p, nbr=1, radius=2.0), [pts.clone()])
